@@ -1,6 +1,10 @@
 package main
 
 import (
+	"fmt"
+	"math/rand"
+	"strings"
+
 	"github.com/evolbioinfo/gotree/tree"
 )
 
@@ -92,6 +96,31 @@ func c15edit(t *tree.Tree, edit string) bool {
 			t.RemoveTips(false, tip.Name())
 			break
 		}
+	case "reindex":
+		t.ReinitIndexes()
+	case "shuffle":
+		rand.Seed(20261001)
+		t.ShuffleTips() // renames the tips by a permutation, then ReinitIndexes
+	case "swapreindex":
+		tips := t.Tips()
+		if len(tips) >= 2 {
+			a, b := tips[0], tips[len(tips)-1]
+			na, nb := a.Name(), b.Name()
+			a.SetName(nb)
+			b.SetName(na)
+		}
+		t.ReinitIndexes()
+	case "rerootreindex":
+		var target *tree.Node
+		for _, n := range t.Nodes() {
+			if n != t.Root() && n.Nneigh() >= 2 {
+				target = n
+			}
+		}
+		if target != nil {
+			t.Reroot(target) // re-indexes the branches (ReinitInternalIndexes)
+		}
+		t.ReinitIndexes()
 	case "reroot":
 		var target *tree.Node
 		for _, n := range t.Nodes() {
@@ -120,6 +149,81 @@ func c15edit(t *tree.Tree, edit string) bool {
 		}
 	}
 	return t.Newick() != before
+}
+
+// c15index reads the index state of t: per branch in Edges() order the bitset bits (TipPresent per
+// tip id), NumTipsLeft/Right and HashCode; per tip in Tips() order its TipIndex.
+func c15index(t *tree.Tree) string {
+	var b strings.Builder
+	ntips := len(t.Tips())
+	for _, e := range t.Edges() {
+		if e.Bitset() == nil {
+			b.WriteString("nil")
+		} else {
+			for i := 0; i < ntips; i++ {
+				if uint(i) < e.Bitset().Len() && e.TipPresent(uint(i)) {
+					b.WriteByte('1')
+				} else {
+					b.WriteByte('0')
+				}
+			}
+			fmt.Fprintf(&b, "/%d", e.Bitset().Len())
+		}
+		fmt.Fprintf(&b, ":%d:%d:%d;", e.NumTipsLeft(), e.NumTipsRight(), e.HashCode())
+	}
+	b.WriteString("|")
+	for _, tip := range t.Tips() {
+		fmt.Fprintf(&b, "%s=%d;", tip.Name(), tip.TipIndex())
+	}
+	return b.String()
+}
+
+// c15consistent compares every branch of t (SameBipartition) with the corresponding branch of an
+// independently built and indexed tree made from t's own dump: T (all the same bipartition), F, or NA
+// when t carries no complete index.
+func c15consistent(t *tree.Tree) (res string) {
+	defer func() {
+		if r := recover(); r != nil {
+			res = "F"
+		}
+	}()
+	for _, e := range t.Edges() {
+		if e.Bitset() == nil {
+			return "NA"
+		}
+	}
+	if _, err := t.NbTips(); err != nil {
+		return "NA"
+	}
+	problems := []string{}
+	d := DumpTree(t, &problems)
+	fresh, err := BuildTree(d)
+	if err != nil || len(problems) > 0 {
+		return "NA"
+	}
+	if err := fresh.ReinitIndexes(); err != nil {
+		return "NA"
+	}
+	e1 := t.Edges()
+	e2 := fresh.Edges()
+	if len(e1) != len(e2) {
+		return "F"
+	}
+	for i := range e1 {
+		if !e1[i].SameBipartition(e2[i]) || !e2[i].SameBipartition(e1[i]) {
+			return "F"
+		}
+		if e1[i].NumTipsLeft() != e2[i].NumTipsLeft() || e1[i].NumTipsRight() != e2[i].NumTipsRight() {
+			return "F"
+		}
+	}
+	ft := fresh.Tips()
+	for i, tip := range t.Tips() {
+		if tip.TipIndex() != ft[i].TipIndex() {
+			return "F"
+		}
+	}
+	return "T"
 }
 
 // c15pair builds the original (indexes as asked) and takes the copy.
@@ -160,20 +264,31 @@ func c15(c *Sexp) *Sexp {
 		nwOrig := orig.Newick()
 		nwCopy := cp.Newick()
 		d, audit := ObserveTree(cp)
+		ixOrig := c15index(orig)
+		ixCopy := c15index(cp)
+		okCopy0 := c15consistent(cp)
 		changed1 := c15edit(cp, edit)
 		da, auditA := ObserveTree(orig)
 		nwOrigAfter := orig.Newick()
+		ixOrigAfter := c15index(orig)
+		okOrig := c15consistent(orig)
 		// second pair: edit the original, look at the copy again
 		orig2, cp2, msg := c15pair(c, op)
 		if msg != "" {
 			return L(KV("panic", A(msg)))
 		}
+		ixCopy2 := c15index(cp2)
 		changed2 := c15edit(orig2, edit)
 		dc, auditC := ObserveTree(cp2)
 		nwCopyAfter := cp2.Newick()
+		ixCopyAfter := c15index(cp2)
+		okCopy := c15consistent(cp2)
 		return L(KV("tree", d), KV("audit", audit), KV("nw_orig", A(nwOrig)), KV("nw_copy", A(nwCopy)),
 			KV("orig_after", da), KV("audit_orig", auditA), KV("nw_orig_after", A(nwOrigAfter)),
 			KV("copy_after", dc), KV("audit_copy", auditC), KV("nw_copy_after", A(nwCopyAfter)),
+			KV("ix_orig", A(ixOrig)), KV("ix_orig_after", A(ixOrigAfter)), KV("ix_orig_ok", A(okOrig)),
+			KV("ix_copy", A(ixCopy)), KV("ix_copy2", A(ixCopy2)), KV("ix_copy_after", A(ixCopyAfter)),
+			KV("ix_copy0_ok", A(okCopy0)), KV("ix_copy_ok", A(okCopy)),
 			KV("edit_changed", B(changed1 && changed2)))
 	case "merge":
 		t1, err := BuildTree(c.Get("t1"))
